@@ -397,6 +397,23 @@ exec_harness! { fn c22_register_unregister_keep_map_and_set_in_step() {
     core::mem::forget(st);
 }}
 
+
+// A pending operation holds the task through the C-ABI vtable (`clone` when it registers, `drop` when it is done).  The two must
+// balance exactly: a reference that is never given back keeps SharedTaskState - and with it the task's waitable set - alive for
+// ever after the task has exited ("released exactly once on exit or cancellation").
+exec_harness! { fn c22_task_handle_clone_and_drop_balance_set_released_once() {
+    let mut st = task_waiting_on_w1([Step::Ready; 3], false);
+    let raw: *mut c_void = alloc::sync::Arc::as_ptr(&st.shared).cast_mut().cast();
+    let before = alloc::sync::Arc::strong_count(&st.shared);
+    let handle = unsafe { (super::super::SharedTaskState::CABI_VTABLE.clone)(raw) };
+    vassert!(handle == raw && alloc::sync::Arc::strong_count(&st.shared) == before + 1, "C22: a task handle taken through the C ABI is exactly one more strong reference to the same state");
+    unsafe { (super::super::SharedTaskState::CABI_VTABLE.drop)(handle) };
+    vassert!(alloc::sync::Arc::strong_count(&st.shared) == before, "C22: giving the handle back releases exactly that reference");
+    sc().unregister_on_drop = true;
+    drop(st);
+    vassert!(sc().drops == 1 && h().sets_new == 1 && h().sets_dropped == 1, "C22: with the task and every handle gone, the shared state is released and the waitable set dropped exactly once");
+}}
+
 // -------------------------------------------------------------------------------- thorough tier: a whole history in one harness
 // start_task (waits on W1) -> the host reports W1's event (work wakes itself: YIELD) -> EVENT_NONE (work finishes: EXIT).
 // Three executor steps in one CBMC run; the single-step obligations above are the deciding ones, this is the composed check.
@@ -434,6 +451,15 @@ exec_harness! { fn c22_block_on_waits_on_own_set_until_the_event_then_returns() 
     vassert!(h().wait_calls == 1, "C22: pending and not woken => one waitable-set.wait on the task's own set");
     vassert!(sc().cb_calls == 1 && sc().cb_code == code && sc().cb_entry_removed_before, "C22: the event from wait is delivered once, after leaving the set");
     vassert!(host::joined_set_of(W1) == 0 && h().sets_new == 1 && h().sets_dropped == 1);
+}}
+
+// block_on with a body that only yields (wakes itself, e.g. `yield_async().await`) and never registered a waitable: the executor answers
+// YIELD, there is no waitable set to poll, and the driver must simply call back with no event - not abort.
+exec_harness! { fn c22_block_on_yield_without_any_waitable_returns() {
+    reset([Step::PendingWake, Step::Ready, Step::Ready]);
+    let v = block_on(async { Body.await; 9u32 });
+    vassert!(v == 9 && sc().polls == 2 && sc().drops == 1, "C22: a body that yields once is polled again and finishes");
+    vassert!(h().wait_calls == 0 && h().sets_new == h().sets_dropped, "C22: nothing was ever registered: nothing to wait on, no set left behind");
 }}
 
 // two registered waitables: EXIT only after both completed; WAIT on the own set in between
